@@ -94,10 +94,14 @@ func runScenario(tr *Tracer, s *Scenario, idx int) {
 		ok = runSched(tr, s)
 	case "rowapi":
 		ok = runRowAPI(tr, s)
+	case "rowmerge":
+		ok = runRowMerge(tr, s)
 	case "threads":
 		ok = runThreads(tr, s)
 	case "kv":
 		ok = runKV(tr, s)
+	case "crypto":
+		ok = runCrypto(tr, s)
 	case "order":
 		ok = runOrder(tr, s)
 	default:
